@@ -27,3 +27,4 @@ def run(ctx, rep):
     rep.run(RX.rule_unreadable_xml, ctx, rep, "Q3")
     rep.run(RX.rule_overload_counter, ctx, rep, "Q4")
     rep.run(RX.rule_lookup_provenance, ctx, rep, "Q5")
+    rep.run(RX.rule_docstring_untouched, ctx, rep, "Q6")
